@@ -1,9 +1,11 @@
 package props
 
 import (
+	"bufio"
 	"bytes"
 	"fmt"
 	"io"
+	"strings"
 	"unicode/utf8"
 
 	"github.com/tdewolff/parse/v2"
@@ -64,6 +66,7 @@ type c12Case struct {
 	Ctor   string `json:"ctor"`   // string | bytes-tight | bytes-spare | reader | bytesreader | failreader
 	Data   fw.B   `json:"data"`   // bytes the reader delivers / the slice holds
 	FailAt int    `json:"failAt"` // for failreader
+	Std    string `json:"std,omitempty"` // for stdreader
 	Ops    []string
 }
 
@@ -103,7 +106,7 @@ func c12Run(t *fw.T) {
 	r := t.Rng
 	data := c12GenData(t)
 	impl := gen.Pick(r, []string{"input", "lexer"})
-	ctor := gen.Pick(r, []string{"string", "bytes-tight", "bytes-spare", "reader", "bytesreader", "bytesreader-spare", "failreader", "nilreader"})
+	ctor := gen.Pick(r, []string{"string", "bytes-tight", "bytes-spare", "reader", "bytesreader", "bytesreader-spare", "failreader", "nilreader", "stdreader"})
 	if impl == "lexer" && ctor == "string" {
 		ctor = "bytes-tight"
 	}
@@ -182,6 +185,34 @@ func c12Exec(t *fw.T, cs *c12Case, _ bool) {
 	case "nilreader":
 		c = newFromReader(nil)
 		model.data = nil
+	case "stdreader":
+		// a standard-library reader of which the caller has already consumed a prefix: the cursor is over what the
+		// reader still delivers, whatever Size()/Len()/Bytes() shortcuts the reader type offers
+		pre := []byte(gen.Pick(r, []string{"", "x", "prefix--", "\x00\x00\x00"}))
+		all := append(append([]byte(nil), pre...), data...)
+		kind := gen.Pick(r, []string{"bytes.Reader", "strings.Reader", "io.SectionReader", "bytes.Buffer", "bufio.Reader", "bytes.Reader+ReadByte"})
+		cs.Std = fmt.Sprintf("%s after %d bytes were read", kind, len(pre))
+		var rd io.Reader
+		switch kind {
+		case "bytes.Reader", "bytes.Reader+ReadByte":
+			rd = bytes.NewReader(all)
+		case "strings.Reader":
+			rd = strings.NewReader(string(all))
+		case "io.SectionReader":
+			rd = io.NewSectionReader(bytes.NewReader(all), 0, int64(len(all)))
+		case "bytes.Buffer":
+			rd = bytes.NewBuffer(all)
+		case "bufio.Reader":
+			rd = bufio.NewReaderSize(bytes.NewReader(all), 16)
+		}
+		if kind == "bytes.Reader+ReadByte" {
+			for range pre {
+				rd.(*bytes.Reader).ReadByte()
+			}
+		} else if len(pre) > 0 {
+			io.ReadFull(rd, make([]byte, len(pre)))
+		}
+		c = newFromReader(rd)
 	}
 	t.Seen("ctor", cs.Impl+"/"+cs.Ctor)
 
